@@ -76,7 +76,7 @@ class Prop:
                     add(entry, ''.join(t).encode(), 'exh-' + entry)
         self.exhaustive_note = 'all strings up to %r symbols over the per-entry alphabets' % maxlen
         pools = [('S', samples.SCHEMAS), ('E', samples.ENUMS), ('J', samples.JSONS), ('R', samples.REGEXES)]
-        extra = {'S': ['SL', 'SA', 'SE', 'SU'], 'E': ['EL'], 'J': ['T', 'JL'], 'R': []}
+        extra = {'S': ['SL', 'SA', 'SE', 'SU', 'ST'], 'E': ['EL'], 'J': ['T', 'JL'], 'R': []}
         toks = [b'{', b'}', b'[', b']', b'"', b':', b',', b'//', b'/*', b'*/', b'#', b'@', b'|', b'\t', b' ', b'\n', b'x', b'1', b'-', b'\\', b'%', b'%d', b'%s']
         for entry, pool in pools:
             for text in pool:
@@ -94,6 +94,24 @@ class Prop:
                         for e2 in extra[entry]:
                             if rng.random() < 0.3:
                                 add(e2, mb, 'mutated-' + conv)
+        # the rejected text is a user type of an accepted schema: the position refers to the type's text
+        for text in samples.SCHEMAS + ['5 // {min: 9}', '{\n  "k": 1,\n  "x": 5 // {min: 9}\n}', '[\n  1,\n  "s" // {maxLength: 0}\n]', '{\n  "a": @missing\n}',
+                                       '"x" // {enum: @e}', '{ // {allOf: "@nope"}\n}', '{\n  "n": 1.5 // {type: "integer"}\n}']:
+            for conv, t in samples.encodings(text):
+                add('ST', t.encode(), 'user-type-' + conv)
+                b = t.encode()
+                for _ in range(4 if tier == 'quick' else 30):
+                    k = rng.randrange(len(b) + 1)
+                    m = rng.choice(toks)
+                    add('ST', b[:k] + m + b[k:], 'user-type-mutated-' + conv)
+        # long lines: a line of more than 200 bytes is shortened in the quotation, wherever the line stands in the text
+        for pad in (0, 1, 3, 30):
+            for n in (150, 189, 190, 197, 198, 199, 250, 600):
+                for nl in ('\n', '\r\n'):
+                    body = '{' + nl + ''.join('  "p%d": %d,%s' % (i, i, nl) for i in range(pad)) + '  "k": "' + 'x' * n + '" x' + nl + '}'
+                    for e in ('S', 'SL', 'SA', 'ST', 'J', 'T', 'JL'):
+                        add(e, body.encode(), 'long-line')
+                    add('E', ('[' + nl + ''.join('  %d,%s' % (i, nl) for i in range(pad)) + '  "' + 'y' * n + '" y' + nl + ']').encode(), 'long-line')
         # messages quote pieces of the input: formatting verbs in the input must come out as they went in
         for entry, texts in [('S', ['{"a": %}', '1 // {"%d": 2}', '"100%" // {type: "email"}', '{\n  "50%s": 1,\n  "50%s": 2\n}', '%v', '1 // {min: %s}', '@%d', '{"a": 1} %x',
                                     '1 // {type: "%v"}', '"a" // {regex: "%("}', '1 // {or: ["%s", "integer"]}', '{ // {allOf: "@%d"}\n}']),
